@@ -38,7 +38,7 @@ func Mutate(r *rand.Rand, text string, maxEdits int) string {
 			break
 		}
 		i := r.IntN(len(ps))
-		switch r.IntN(7) {
+		switch r.IntN(8) {
 		case 0: // delete
 			ps = append(ps[:i], ps[i+1:]...)
 		case 1: // insert
@@ -67,6 +67,15 @@ func Mutate(r *rand.Rand, text string, maxEdits int) string {
 		case 6: // replace with token from same text (keeps it plausible)
 			j := r.IntN(len(ps))
 			ps[i].tok = ps[j].tok
+		case 7: // move a token 1-3 positions to the right
+			j := i + 1 + r.IntN(3)
+			if j < len(ps) {
+				t := ps[i].tok
+				for k := i; k < j; k++ {
+					ps[k].tok = ps[k+1].tok
+				}
+				ps[j].tok = t
+			}
 		}
 	}
 	var sb strings.Builder
@@ -226,5 +235,37 @@ func SystematicEdits(text string, f func(mutant string)) {
 	}
 	if n := len(lx.Toks); n > 0 {
 		f(text[:lx.Toks[n-1].End] + " ," + text[lx.Toks[n-1].End:])
+	}
+	// every balanced bracket group deleted
+	var stack []int
+	for i, t := range lx.Toks {
+		switch t.Kind {
+		case "(", "[", "{":
+			stack = append(stack, i)
+		case ")", "]", "}":
+			if len(stack) > 0 {
+				o := lx.Toks[stack[len(stack)-1]]
+				stack = stack[:len(stack)-1]
+				f(text[:o.Pos] + text[t.End:])
+			}
+		}
+	}
+}
+
+// SystematicMoves yields, for every token position, the text with that token moved 1, 2 or 3 tokens to the right
+// (clause-order near misses: most are rejected, the accepted ones are shapes no author wrote).
+func SystematicMoves(text string, f func(mutant string)) {
+	lx := reflex.Lex(text)
+	if lx.Status != reflex.Accept {
+		return
+	}
+	n := len(lx.Toks)
+	for i := 0; i < n; i++ {
+		for d := 1; d <= 3 && i+d < n; d++ {
+			a, b := lx.Toks[i], lx.Toks[i+d]
+			// text = ... a rest b ...  ->  ... rest b a ...
+			mid := text[a.End:b.End]
+			f(text[:a.Pos] + strings.TrimLeft(mid, " ") + " " + text[a.Pos:a.End] + text[b.End:])
+		}
 	}
 }
